@@ -21,6 +21,29 @@ Proof.
   - rewrite IH, len_cons. f_equal. lia.
 Qed.
 
+Lemma memz_app x S T : memz x (S ++ T) = memz x S || memz x T.
+Proof. unfold memz. apply existsb_app. Qed.
+
+Lemma memz_iota x a c : memz x (iota a c) = (a <=? x) && (x <? a + Z.of_nat c).
+Proof.
+  apply eq_true_iff_eq. rewrite memz_true, in_iota, andb_true_iff, Z.leb_le, Z.ltb_lt. tauto.
+Qed.
+
+Lemma memz_frag_nums x k c : 0 <= c -> memz x (frag_nums k c) = (k <=? x) && (x <? k + c).
+Proof. intros Hc. unfold frag_nums. rewrite memz_iota, Z2Nat.id by lia. reflexivity. Qed.
+
+(* one fragment per DATAFRAG is the case c = 1 *)
+Lemma frag_nums_1 k : frag_nums k 1 = [k].
+Proof. reflexivity. Qed.
+
+Lemma data_frag_msg_frags sp sn k fs D : data_frag_msg sp sn k fs D = data_frags_msg sp sn k 1 fs D.
+Proof. unfold data_frag_msg, data_frags_msg. now replace (k - 1 + 1) with k by lia. Qed.
+
+Lemma frag_nums_app_ne k c S : 1 <= c -> frag_nums k c ++ S <> [].
+Proof.
+  intros Hc. unfold frag_nums. destruct (Z.to_nat c) eqn:E; [lia|]. cbn. discriminate.
+Qed.
+
 Section Key.
   Variables (w sn fs : Z) (sp : spayload).
   Let D := payload_size sp.
@@ -28,8 +51,10 @@ Section Key.
   Hypothesis Hfs : 1 <= fs <= 65535.
   Hypothesis HD : fs < D < 2 ^ 32.
 
-  (* the DATAFRAG the writer emits for fragment k of this sample (Split.split_covers) *)
-  Definition mk (k : Z) : datafrag := data_frag_msg sp sn k fs D.
+  (* the DATAFRAG that carries fragments k .. k+c-1 of this sample; c = 1: what the writer emits
+     for fragment k (Split.split_covers) *)
+  Definition mk (k c : Z) : datafrag := data_frags_msg sp sn k c fs D.
+  Definition span_ok (k c : Z) : Prop := 1 <= k /\ 1 <= c <= 65535 /\ k - 1 + c <= n.
 
   Let Hn_lo : (n - 1) * fs < D.
   Proof. apply total_frags_lower; lia. Qed.
@@ -40,22 +65,26 @@ Section Key.
   Let Hn_le : n <= D.
   Proof. nia. Qed.
 
-  Lemma mk_ok k : 1 <= k <= n -> df_ok (mk k).
+  Lemma mk_payload k c : span_ok k c ->
+    df_payload (mk k c) = sub (hv sp) ((k - 1) * fs) (Z.min ((k - 1 + c) * fs) D)
+    /\ len (df_payload (mk k c)) = Z.min ((k - 1 + c) * fs) D - (k - 1) * fs.
   Proof.
-    intros Hk. unfold df_ok, mk.
-    cbn [data_frag_msg df_start df_count df_data_size df_frag_size].
-    change (bytes_slice sp ((k - 1) * fs) (Z.min (k * fs) D))
-      with (df_payload (data_frag_msg sp sn k fs (payload_size sp))).
-    rewrite len_frag_payload by (fold D; nia). fold D. repeat split; try lia; nia.
+    intros (Hk & Hc & Hs).
+    assert (H0 : 0 <= (k - 1) * fs) by nia.
+    assert (H1 : (k - 1) * fs < D) by nia.
+    assert (H2 : (k - 1) * fs < (k - 1 + c) * fs) by nia.
+    assert (E : df_payload (mk k c) = sub (hv sp) ((k - 1) * fs) (Z.min ((k - 1 + c) * fs) D)).
+    { unfold mk. cbn [data_frags_msg df_payload]. rewrite bytes_slice_sub by assumption.
+      fold D. f_equal; lia. }
+    split; [exact E|]. rewrite E. rewrite len_sub; [reflexivity | lia | rewrite len_hv; fold D; lia].
   Qed.
 
-  Lemma mk_payload k : 1 <= k <= n ->
-    df_payload (mk k) = sub (hv sp) ((k - 1) * fs) (Z.min (k * fs) D)
-    /\ len (df_payload (mk k)) = Z.min (k * fs) D - (k - 1) * fs.
+  Lemma mk_ok k c : span_ok k c -> df_ok (mk k c).
   Proof.
-    intros Hk. unfold mk. fold D. split.
-    - unfold D. rewrite data_frag_msg_payload by (fold D; nia). reflexivity.
-    - unfold D. rewrite len_frag_payload by (fold D; nia). reflexivity.
+    intros Hs. destruct (mk_payload k c Hs) as (_ & PL). destruct Hs as (Hk & Hc & Hs).
+    unfold df_ok. rewrite PL. unfold mk.
+    cbn [data_frags_msg df_start df_count df_data_size df_frag_size].
+    repeat split; try lia; nia.
   Qed.
 
   (* assembly buffer of the sample vs the set S of fragment numbers received in this attempt *)
@@ -94,46 +123,57 @@ Section Key.
     - rewrite znth_app_l by (rewrite len_firstn by lia; lia). apply znth_firstn. lia.
   Qed.
 
-  (* inserting fragment k *)
-  Lemma insert_key ab S k now :
-    ab_rel ab S -> 1 <= k <= n ->
-    exists ab', insert_frags ab (mk k) fs now = Ok ab' /\ ab_rel ab' (k :: S) /\ ab_mtime ab' = now.
+  (* inserting fragments k .. k+c-1 carried by one DATAFRAG: the payload is copied to the byte
+     range (k-1)*fs .. min((k-1+c)*fs, D) and the bits k-1 .. k+c-2 are set *)
+  Lemma insert_key ab S k c now :
+    ab_rel ab S -> span_ok k c ->
+    exists ab', insert_frags ab (mk k c) fs now = Ok ab'
+                /\ ab_rel ab' (frag_nums k c ++ S) /\ ab_mtime ab' = now.
   Proof.
-    intros Hrel Hk. pose proof (ab_rel_inv ab S Hrel) as Hinv.
+    intros Hrel Hsp. pose proof (ab_rel_inv ab S Hrel) as Hinv.
     destruct Hrel as (LB & CN & LM & BM & BY).
-    destruct (mk_payload k Hk) as (PE & PL).
-    assert (Hto : ins_to (mk k) fs (len (ab_bytes ab)) = Z.min (k * fs) D).
-    { unfold ins_to, mk. cbn [data_frag_msg df_start df_count]. rewrite LB. f_equal. f_equal. lia. }
-    assert (Hfrom : ins_from (mk k) fs = (k - 1) * fs) by reflexivity.
-    destruct (insert_frags_valid ab (mk k) fs now Hinv (mk_ok k Hk)) as (bm & Eb & Ei & Hr & Hf0).
-    { cbn; lia. } { cbn; lia. } { cbn [mk data_frag_msg df_start df_count]. lia. }
+    destruct (mk_payload k c Hsp) as (PE & PL).
+    pose proof (mk_ok k c Hsp) as Hok.
+    destruct Hsp as (Hk & Hc & Hs).
+    assert (Hto : ins_to (mk k c) fs (len (ab_bytes ab)) = Z.min ((k - 1 + c) * fs) D).
+    { unfold ins_to, mk. cbn [data_frags_msg df_start df_count]. rewrite LB. reflexivity. }
+    assert (Hfrom : ins_from (mk k c) fs = (k - 1) * fs) by reflexivity.
+    destruct (insert_frags_valid ab (mk k c) fs now Hinv Hok) as (bm & Eb & Ei & Hr & Hf0).
+    { cbn; lia. } { cbn; lia. } { cbn [mk data_frags_msg df_start df_count]. lia. }
     { rewrite Hto, Hfrom, PL. lia. }
     rewrite Hto, Hfrom in *.
     eexists. split; [exact Ei|]. split; [|reflexivity].
-    assert (Esrc : firstn (Z.to_nat (Z.min (k * fs) D - (k - 1) * fs)) (df_payload (mk k)) = df_payload (mk k)).
+    assert (Esrc : firstn (Z.to_nat (Z.min ((k - 1 + c) * fs) D - (k - 1) * fs)) (df_payload (mk k c))
+                   = df_payload (mk k c)).
     { apply firstn_all2. unfold len in PL. lia. }
     rewrite Esrc.
-    destruct (set_bits_ok (Z.to_nat (df_count (mk k))) (ab_bitmap ab) (df_start (mk k) - 1))
+    destruct (set_bits_ok (Z.to_nat (df_count (mk k c))) (ab_bitmap ab) (df_start (mk k c) - 1))
       as (bm' & Eb' & Lb' & Nb').
-    { cbn; lia. } { cbn [mk data_frag_msg df_start df_count]. lia. }
+    { cbn; lia. } { cbn [mk data_frags_msg df_start df_count]. lia. }
     rewrite Eb in Eb'. inversion Eb'; subst bm'. clear Eb'.
     unfold ab_rel. cbn [ab_bytes ab_count ab_bitmap].
     split; [rewrite insert_bytes_len; [assumption | lia | lia | lia]|].
     split; [assumption|]. split; [lia|]. split.
-    - intros j Hj. rewrite Nb' by lia. cbn [mk data_frag_msg df_start df_count].
-      rewrite memz_cons. rewrite BM by assumption.
-      destruct (Z.leb_spec (k - 1) j), (Z.ltb_spec j (k - 1 + Z.of_nat (Z.to_nat 1))), (Z.eqb_spec (j + 1) k);
+    - intros j Hj. rewrite Nb' by lia. cbn [mk data_frags_msg df_start df_count].
+      rewrite memz_app, memz_frag_nums by lia. rewrite BM by assumption.
+      rewrite Z2Nat.id by lia.
+      destruct (Z.leb_spec (k - 1) j), (Z.ltb_spec j (k - 1 + c)),
+               (Z.leb_spec k (j + 1)), (Z.ltb_spec (j + 1) (k + c));
         cbn; try reflexivity; lia.
     - intros i Hi Hm. rewrite znth_splice by lia.
-      rewrite memz_cons in Hm.
-      destruct (Z.leb_spec ((k - 1) * fs) i) as [H1|H1], (Z.ltb_spec i (Z.min (k * fs) D)) as [H2|H2]; cbn [andb].
+      rewrite memz_app, memz_frag_nums in Hm by lia.
+      pose proof (proj1 (div_range i fs (i / fs) ltac:(lia)) eq_refl) as Hq.
+      destruct (Z.leb_spec ((k - 1) * fs) i) as [H1|H1],
+               (Z.ltb_spec i (Z.min ((k - 1 + c) * fs) D)) as [H2|H2]; cbn [andb].
       + rewrite PE. rewrite znth_sub by lia. f_equal. lia.
-      + assert (i / fs + 1 <> k).
-        { intros E. assert (i / fs = k - 1) as E' by lia. apply div_range in E'; lia. }
-        destruct (Z.eqb_spec (i / fs + 1) k); [contradiction|]. cbn in Hm. now apply BY.
-      + assert (i / fs + 1 <> k).
-        { intros E. assert (i / fs = k - 1) as E' by lia. apply div_range in E'; lia. }
-        destruct (Z.eqb_spec (i / fs + 1) k); [contradiction|]. cbn in Hm. now apply BY.
+      + assert (Hout : (k <=? i / fs + 1) && (i / fs + 1 <? k + c) = false).
+        { destruct (Z.leb_spec k (i / fs + 1)), (Z.ltb_spec (i / fs + 1) (k + c)); cbn; try reflexivity.
+          exfalso. nia. }
+        rewrite Hout in Hm. cbn in Hm. now apply BY.
+      + assert (Hout : (k <=? i / fs + 1) && (i / fs + 1 <? k + c) = false).
+        { destruct (Z.leb_spec k (i / fs + 1)), (Z.ltb_spec (i / fs + 1) (k + c)); cbn; try reflexivity.
+          exfalso. nia. }
+        rewrite Hout in Hm. cbn in Hm. now apply BY.
       + lia.
   Qed.
 
@@ -164,44 +204,44 @@ Section Key.
     fold (znth (k - 1) (ab_bitmap ab) false). rewrite BM by lia. f_equal. lia.
   Qed.
 
-  (* new_datafrag on fragment k of this sample *)
-  Lemma new_datafrag_key fa S k now :
+  (* new_datafrag on the DATAFRAG carrying fragments k .. k+c-1 of this sample *)
+  Lemma new_datafrag_key fa S k c now :
     fa_inv fa -> fa_fs fa = fs ->
     match alookup sn (fa_bufs fa) with Some ab => ab_rel ab S | None => S = [] end ->
-    1 <= k <= n ->
-    exists fa' r, new_datafrag fa (mk k) now = Ok (fa', r) /\ fa_fs fa' = fs
-      /\ if covers n (k :: S)
+    span_ok k c ->
+    exists fa' r, new_datafrag fa (mk k c) now = Ok (fa', r) /\ fa_fs fa' = fs
+      /\ if covers n (frag_nums k c ++ S)
          then r = Some (hv sp) /\ alookup sn (fa_bufs fa') = None
          else r = None /\ exists ab', alookup sn (fa_bufs fa') = Some ab'
-                                      /\ ab_rel ab' (k :: S) /\ ab_mtime ab' = now.
+                                      /\ ab_rel ab' (frag_nums k c ++ S) /\ ab_mtime ab' = now.
   Proof.
-    intros Hinv Hfa Hbuf Hk.
-    destruct (mk_payload k Hk) as (PE & PL).
-    assert (V : validate_datafrag fa (mk k) = true).
-    { apply validate_spec. unfold ins_to, ins_from.
-      cbn [mk data_frag_msg df_sn df_start df_count df_data_size df_frag_size].
-      change (bytes_slice sp ((k - 1) * fs) (Z.min (k * fs) D)) with (df_payload (mk k)).
-      rewrite PL. fold n.
+    intros Hinv Hfa Hbuf Hsp.
+    destruct (mk_payload k c Hsp) as (PE & PL).
+    pose proof Hsp as (Hk & Hc & Hs).
+    assert (V : validate_datafrag fa (mk k c) = true).
+    { apply validate_spec. unfold ins_to, ins_from. rewrite PL. unfold mk.
+      cbn [data_frags_msg df_sn df_start df_count df_data_size df_frag_size].
+      fold n.
       repeat split; try lia.
       destruct (alookup sn (fa_bufs fa)) as [ab|]; [|exact I]. now destruct Hbuf. }
     unfold new_datafrag. rewrite V. unfold assemble.
-    change (df_sn (mk k)) with sn.
+    change (df_sn (mk k c)) with sn.
     assert (exists ab0,
-      match alookup sn (fa_bufs fa) with Some ab => Ok ab | None => abuf_new (mk k) now end = Ok ab0
+      match alookup sn (fa_bufs fa) with Some ab => Ok ab | None => abuf_new (mk k c) now end = Ok ab0
       /\ ab_rel ab0 S) as (ab0 & E0 & R0).
     { destruct (alookup sn (fa_bufs fa)) as [ab|].
       - exists ab. split; [reflexivity|assumption].
-      - subst S. destruct (abuf_new_ok (mk k) now (mk_ok k Hk)) as (E & _).
-        { cbn [mk data_frag_msg df_frag_size df_data_size]. lia. }
+      - subst S. destruct (abuf_new_ok (mk k c) now (mk_ok k c Hsp)) as (E & _).
+        { cbn [mk data_frags_msg df_frag_size df_data_size]. lia. }
         eexists. split; [exact E|]. apply ab_rel_new. }
     rewrite E0. cbn [bind]. rewrite Hfa.
-    destruct (insert_key ab0 S k now R0 Hk) as (ab' & Ei & R' & M').
+    destruct (insert_key ab0 S k c now R0 Hsp) as (ab' & Ei & R' & M').
     rewrite Ei. cbn [bind].
-    rewrite (complete_iff ab' (k :: S) R').
-    destruct (covers n (k :: S)) eqn:C.
+    rewrite (complete_iff ab' (frag_nums k c ++ S) R').
+    destruct (covers n (frag_nums k c ++ S)) eqn:C.
     - eexists _, _. split; [reflexivity|]. split; [reflexivity|]. cbn [fa_bufs].
       split; [|apply alookup_aremove_eq].
-      rewrite (complete_bytes ab' (k :: S) R' C).
+      rewrite (complete_bytes ab' (frag_nums k c ++ S) R' C).
       destruct (Z.leb_spec 4 (len (hv sp))); [reflexivity|].
       rewrite len_hv in *. pose proof (payload_size_pos sp). lia.
     - eexists _, _. split; [reflexivity|]. split; [reflexivity|]. cbn [fa_bufs].
@@ -219,25 +259,26 @@ Section Key.
 
   Definition kev_of_op (o : op) : kev :=
     match o with
-    | OFrag w' df => if (w' =? w) && (df_sn df =? sn) then KFrag (df_start df) else KNone
+    | OFrag w' df => if (w' =? w) && (df_sn df =? sn) then KFrag (df_start df) (df_count df) else KNone
     | OGc w' t => if w' =? w then KGc t else KNone
     end.
 
   (* honest-writer hypotheses, for this sample only: every DATAFRAG that claims to come from
-     writer w carries w's fragment size, and those that carry sequence number sn are fragments
-     of the sample as the writer emits them.  Nothing is assumed about other writers, and about
+     writer w carries w's fragment size, and those that carry sequence number sn carry c >= 1
+     consecutive fragments k .. k+c-1 of the sample (c = 1: as RustDDS' writer emits them; c > 1:
+     as other vendors' writers may).  Nothing is assumed about other writers, and about
      other samples of w only the fragment size. *)
   Definition op_honest (o : op) : Prop :=
     match o with
     | OFrag w' df => w' = w -> df_frag_size df = fs
-                               /\ (df_sn df = sn -> exists k, 1 <= k <= n /\ df = mk k)
+                               /\ (df_sn df = sn -> exists k c, span_ok k c /\ df = mk k c)
     | OGc _ _ => True
     end.
 
-  (* what the arrival of fragment k must produce when S = fst ks has been received so far *)
-  Definition expected (ks : kstate) (k : Z) : aout :=
-    if covers n (k :: fst ks) then AOut (Some (hv sp)) []
-    else AOut None (missing_of n (k :: fst ks)).
+  (* what the arrival of fragments k .. k+c-1 must produce when S = fst ks has been received so far *)
+  Definition expected (ks : kstate) (k c : Z) : aout :=
+    if covers n (frag_nums k c ++ fst ks) then AOut (Some (hv sp)) []
+    else AOut None (missing_of n (frag_nums k c ++ fst ks)).
 
   Lemma R_nil : R [] k0.
   Proof. unfold R, fs_at, buf_at. cbn. split; [exact I|reflexivity]. Qed.
@@ -246,7 +287,7 @@ Section Key.
     rinv st -> R st ks -> op_ok o -> op_honest o ->
     exists st' out, step new_datafrag now st o = Ok (st', out) /\ rinv st'
       /\ R st' (kstep n now ks (kev_of_op o))
-      /\ (forall k, kev_of_op o = KFrag k -> out = expected ks k).
+      /\ (forall k c, kev_of_op o = KFrag k c -> out = expected ks k c).
   Proof.
     intros Hinv (Rfs & Rbuf) Hok Hh.
     destruct (step_ok now st o Hinv Hok) as (st' & out & E & Hinv' & _ & _).
@@ -257,43 +298,44 @@ Section Key.
       + destruct (Hh eq_refl) as (Hdfs & Hsn).
         destruct (Z.eqb_spec (df_sn df) sn) as [Esn|Nsn].
         * (* a fragment of this sample *)
-          destruct (Hsn Esn) as (k & Hk & ->). clear Hsn.
-          cbn [step] in E. fold (fa_of st w (mk k)) in E.
-          assert (Hfa : fa_fs (fa_of st w (mk k)) = fs).
+          destruct (Hsn Esn) as (k & c & Hk & ->). clear Hsn.
+          cbn [step] in E. fold (fa_of st w (mk k c)) in E.
+          assert (Hfa : fa_fs (fa_of st w (mk k c)) = fs).
           { unfold fa_of, fs_at in *. destruct (alookup w st); [assumption|reflexivity]. }
-          assert (Hb : match alookup sn (fa_bufs (fa_of st w (mk k))) with
+          assert (Hb : match alookup sn (fa_bufs (fa_of st w (mk k c))) with
                        | Some ab => ab_rel ab (fst ks) | None => fst ks = [] end).
           { unfold fa_of, buf_at in *. destruct (alookup w st) as [fa|]; [|exact Rbuf].
             destruct (alookup sn (fa_bufs fa)); [tauto|assumption]. }
-          destruct (new_datafrag_key (fa_of st w (mk k)) (fst ks) k now
-                      (fa_of_inv st w (mk k) Hinv Hok) Hfa Hb Hk) as (fa' & r & En & Hfs' & Hres).
+          destruct (new_datafrag_key (fa_of st w (mk k c)) (fst ks) k c now
+                      (fa_of_inv st w (mk k c) Hinv Hok) Hfa Hb Hk) as (fa' & r & En & Hfs' & Hres).
           rewrite En in E. cbn [bind fst snd] in E. inversion E; subst st' out. clear E.
-          change (df_start (mk k)) with k. change (df_sn (mk k)) with sn.
+          change (df_start (mk k c)) with k. change (df_count (mk k c)) with c.
+          change (df_sn (mk k c)) with sn.
           unfold R, fs_at, buf_at, expected, kstep. rewrite alookup_ainsert_eq.
-          destruct (covers n (k :: fst ks)) eqn:C.
+          destruct (covers n (frag_nums k c ++ fst ks)) eqn:C.
           -- destruct Hres as (-> & Hl). cbn [fst snd]. rewrite Hl.
              split; [split; [assumption|reflexivity]|].
-             intros k' [= <-]. rewrite C. unfold missing_frags_for. rewrite Hl. reflexivity.
+             intros k' c' [= <- <-]. rewrite C. unfold missing_frags_for. rewrite Hl. reflexivity.
           -- destruct Hres as (-> & ab' & Hl & Hrel & Hm). cbn [fst snd]. rewrite Hl.
              split; [split; [assumption|]|].
-             ++ split; [discriminate|]. split; [assumption|]. split; assumption.
-             ++ intros k' [= <-]. rewrite C. unfold missing_frags_for. rewrite Hl.
-                now rewrite (missing_key ab' (k :: fst ks) Hrel).
+             ++ split; [apply frag_nums_app_ne; apply Hk|]. split; [assumption|]. split; assumption.
+             ++ intros k' c' [= <- <-]. rewrite C. unfold missing_frags_for. rewrite Hl.
+                now rewrite (missing_key ab' (frag_nums k c ++ fst ks) Hrel).
         * (* another sample of the same writer *)
-          split; [|intros k; discriminate]. cbn [kstep]. unfold R.
+          split; [|intros k c; discriminate]. cbn [kstep]. unfold R.
           rewrite (step_frame_fs new_datafrag now st w df st' out w nd_frame_new E).
           rewrite (step_frame new_datafrag now st w df st' out w sn nd_frame_new E) by congruence.
           split; [|exact Rbuf].
           destruct (fs_at st w); [assumption|]. now rewrite Z.eqb_refl.
       + (* another writer *)
-        split; [|intros k; discriminate]. cbn [kstep]. unfold R.
+        split; [|intros k c; discriminate]. cbn [kstep]. unfold R.
         rewrite (step_frame_fs new_datafrag now st w' df st' out w nd_frame_new E).
         rewrite (step_frame new_datafrag now st w' df st' out w sn nd_frame_new E) by congruence.
         split; [|exact Rbuf].
         destruct (fs_at st w); [assumption|]. destruct (Z.eqb_spec w w'); [congruence|exact I].
     - (* garbage collection *)
       destruct (Z.eqb_spec w' w) as [->|Nw].
-      + split; [|intros k; discriminate].
+      + split; [|intros k c; discriminate].
         cbn [step] in E. unfold R, fs_at, buf_at in *.
         destruct (alookup w st) as [fa|] eqn:El.
         * inversion E; subst st' out. clear E. rewrite alookup_ainsert_eq.
@@ -309,7 +351,7 @@ Section Key.
           -- rewrite Rbuf. assumption.
         * inversion E; subst st' out. rewrite El. split; [exact I|].
           cbn [kstep]. rewrite Rbuf. assumption.
-      + split; [|intros k; discriminate]. cbn [kstep]. unfold R.
+      + split; [|intros k c; discriminate]. cbn [kstep]. unfold R.
         rewrite (step_gc_frame new_datafrag now st w' t st' out w sn E) by congruence.
         split; [|exact Rbuf].
         cbn [step] in E. unfold fs_at in *.
@@ -318,14 +360,14 @@ Section Key.
   Qed.
 
   (* ---- run level ---- *)
-  Lemma run_key pre : forall now st ks o post k,
+  Lemma run_key pre : forall now st ks o post k c,
     rinv st -> R st ks ->
     Forall op_ok (pre ++ o :: post) -> Forall op_honest (pre ++ o :: post) ->
-    kev_of_op o = KFrag k ->
+    kev_of_op o = KFrag k c ->
     nth (length pre) (run_ops new_datafrag now st (pre ++ o :: post)) APanic
-    = expected (krun n now ks (map kev_of_op pre)) k.
+    = expected (krun n now ks (map kev_of_op pre)) k c.
   Proof.
-    induction pre as [|p pre IH]; intros now st ks o post k Hinv HR Fok Fh Hk; cbn [app] in *.
+    induction pre as [|p pre IH]; intros now st ks o post k c Hinv HR Fok Fh Hk; cbn [app] in *.
     - inversion Fok as [|? ? Ho _]; inversion Fh as [|? ? Hh _]; subst.
       destruct (step_key now st ks o Hinv HR Ho Hh) as (st' & out & E & _ & _ & Hout).
       cbn [run_ops length nth map krun]. rewrite E. cbn [nth]. now apply Hout.
@@ -344,37 +386,60 @@ Section Honest.
     sample_of ws w sn = Some sp
     /\ 1 <= fs_of ws w <= 65535 /\ fs_of ws w < payload_size sp < 2 ^ 32.
 
-  Lemma arrival_okb_key w sn k :
-    arrival_okb ws (AFrag w sn k) = true ->
-    exists sp, key_ok w sn sp /\ 1 <= k <= nfrags sp (fs_of ws w).
+  Lemma frags_okb_key w sn k c :
+    frags_okb_arr ws w sn k c = true ->
+    exists sp, key_ok w sn sp /\ span_ok (fs_of ws w) sp k c.
   Proof.
-    cbn [arrival_okb]. destruct (sample_of ws w sn) as [sp|] eqn:E; [|discriminate].
-    rewrite !andb_true_iff, !Z.leb_le, !Z.ltb_lt. intros H. exists sp. unfold key_ok. tauto.
+    unfold frags_okb_arr. destruct (sample_of ws w sn) as [sp|] eqn:E; [|discriminate].
+    rewrite !andb_true_iff, !Z.leb_le, !Z.ltb_lt. intros H. exists sp.
+    unfold key_ok, span_ok, nfrags in *. tauto.
   Qed.
 
   Lemma sp_of_key w sn sp : key_ok w sn sp -> sp_of ws w sn = sp.
   Proof. intros (E & _). unfold sp_of. now rewrite E. Qed.
+
+  (* a single-fragment arrival is the multi-fragment arrival with count 1 *)
+  Definition norm (a : arrival) : arrival :=
+    match a with AFrag w sn k => AFrags w sn k 1 | _ => a end.
+  Lemma to_op_norm a : to_op ws a = to_op ws (norm a).
+  Proof. destruct a; [|reflexivity|reflexivity]. cbn [to_op norm]. now rewrite data_frag_msg_frags. Qed.
+  Lemma arrival_okb_norm a : arrival_okb ws a = arrival_okb ws (norm a).
+  Proof. destruct a; reflexivity. Qed.
+  Lemma kev_of_arrival_norm w sn a : kev_of_arrival w sn a = kev_of_arrival w sn (norm a).
+  Proof. destruct a; reflexivity. Qed.
+  Lemma spec_at_norm pre a : spec_at ws pre a = spec_at ws pre (norm a).
+  Proof. destruct a; reflexivity. Qed.
 
   Lemma kev_to_op w sn a : kev_of_op w sn (to_op ws a) = kev_of_arrival w sn a.
   Proof. destruct a; reflexivity. Qed.
 
   Lemma to_op_ok a : arrival_okb ws a = true -> op_ok (to_op ws a).
   Proof.
-    destruct a as [w sn k|w t]; [|exact (fun _ => I)]. intros H.
-    destruct (arrival_okb_key w sn k H) as (sp & K & Hk). pose proof K as (E & Hfs & HD).
-    cbn [to_op op_ok]. rewrite (sp_of_key w sn sp K).
-    apply (mk_ok sn (fs_of ws w) sp Hfs HD k). exact Hk.
+    rewrite to_op_norm, arrival_okb_norm.
+    destruct (norm a) as [w sn k|w sn k c|w t]; [discriminate 1 || idtac| |exact (fun _ => I)].
+    - cbn [arrival_okb]. intros H.
+      destruct (frags_okb_key w sn k 1 H) as (sp & K & Hk). pose proof K as (E & Hfs & HD).
+      cbn [to_op op_ok]. rewrite (sp_of_key w sn sp K), data_frag_msg_frags.
+      apply (mk_ok sn (fs_of ws w) sp Hfs HD k 1). exact Hk.
+    - cbn [arrival_okb]. intros H.
+      destruct (frags_okb_key w sn k c H) as (sp & K & Hk). pose proof K as (E & Hfs & HD).
+      cbn [to_op op_ok]. rewrite (sp_of_key w sn sp K).
+      apply (mk_ok sn (fs_of ws w) sp Hfs HD k c). exact Hk.
   Qed.
 
   Lemma to_op_honest w sn sp a :
     key_ok w sn sp -> arrival_okb ws a = true -> op_honest w sn (fs_of ws w) sp (to_op ws a).
   Proof.
-    intros K H. destruct a as [w' sn' k|w' t]; [|exact I].
-    cbn [to_op op_honest]. intros ->. split; [reflexivity|].
-    cbn [data_frag_msg df_sn]. intros ->.
-    destruct (arrival_okb_key w sn k H) as (sp' & K' & Hk).
-    assert (sp' = sp) by (destruct K as (E & _), K' as (E' & _); congruence). subst sp'.
-    rewrite (sp_of_key w sn sp K). exists k. split; [exact Hk|reflexivity].
+    intros K. rewrite to_op_norm, arrival_okb_norm.
+    assert (G : forall w' sn' k c, frags_okb_arr ws w' sn' k c = true ->
+                op_honest w sn (fs_of ws w) sp (to_op ws (AFrags w' sn' k c))).
+    { intros w' sn' k c H. cbn [to_op op_honest]. intros ->. split; [reflexivity|].
+      cbn [data_frags_msg df_sn]. intros ->.
+      destruct (frags_okb_key w sn k c H) as (sp' & K' & Hk).
+      assert (sp' = sp) by (destruct K as (E & _), K' as (E' & _); congruence). subst sp'.
+      rewrite (sp_of_key w sn sp K). exists k, c. split; [exact Hk|reflexivity]. }
+    destruct (norm a) as [w' sn' k|w' sn' k c|w' t]; [|apply G|intros _; exact I].
+    intros H. rewrite to_op_norm. cbn [norm]. apply G. exact H.
   Qed.
 
   Definition all_R (st : rstate) (pre : list arrival) : Prop :=
@@ -398,15 +463,17 @@ Section Honest.
       rewrite E in E2. inversion E2; subst st2 out2.
       rewrite map_app. cbn [map]. rewrite krun_snoc, len_map, Z.add_0_l, <- kev_to_op. exact HR2. }
     assert (Hout : out = spec_at ws pre a).
-    { destruct a as [w sn k|w t].
-      - destruct (arrival_okb_key w sn k Ha) as (sp & K & Hk). pose proof K as (Es & Hfs & HD).
-        destruct (step_key w sn (fs_of ws w) sp Hfs HD (len pre) st _ (to_op ws (AFrag w sn k)) Hinv
+    { rewrite spec_at_norm. rewrite to_op_norm in E, Hm. rewrite arrival_okb_norm in Ha.
+      destruct (norm a) as [w sn k|w sn k c|w t] eqn:En.
+      - destruct a; discriminate.
+      - destruct (frags_okb_key w sn k c Ha) as (sp & K & Hk). pose proof K as (Es & Hfs & HD).
+        destruct (step_key w sn (fs_of ws w) sp Hfs HD (len pre) st _ (to_op ws (AFrags w sn k c)) Hinv
                     (HR w sn sp K) (to_op_ok _ Ha) (to_op_honest w sn sp _ K Ha))
           as (st2 & out2 & E2 & _ & _ & Hout).
         rewrite E in E2. inversion E2; subst st2 out2.
-        rewrite (Hout k).
+        rewrite (Hout k c).
         2:{ rewrite kev_to_op. cbn [kev_of_arrival]. now rewrite !Z.eqb_refl. }
-        cbn [spec_at]. rewrite (sp_of_key w sn sp K). reflexivity.
+        cbn [spec_at]. unfold spec_frags. rewrite (sp_of_key w sn sp K). reflexivity.
       - cbn [to_op] in *. destruct out; try contradiction. reflexivity. }
     rewrite Hout. f_equal.
     replace (len pre + 1) with (len (pre ++ [a])) by (rewrite len_app; reflexivity).
